@@ -92,7 +92,7 @@ def rule_bitspec(ctx):
         ctx.bad(rid, "%s|unreviewed-parser" % path, "new header parser %s with %d reads has no reviewed layout" % (path, len(have)), fn=f)
     ctx.counts[rid + ".functions"] = len(ref["functions"])
     ctx.counts[rid + ".functions-reviewed-against-spec"] = reviewed
-    ctx.floor(rid + ".reads", 150)
+    ctx.floor(rid + ".reads", 120)
 
 
 def rule_hdrpred(ctx):
